@@ -83,8 +83,10 @@ CLAIMED = {
          'struct formats and type codes are introspected and proved equal to the standard\'s. The strict reader is run as '
          'oracle on the library\'s real bytes, and conformant encodings from an independent reference encoder (shapes the '
          'library never emits) are decoded by the library.',
-         'Partial: that the strict grammar admits no byte strings other than images of values (needed for the full converse) '
-         'is checked through the reference encoder, not proved. Trusted: the transcription in Dicom/Spec/PduGrammar.lean.'),
+         'Converse proved too (conformant_decodes): every byte string the strict reader accepts with conformant text is an '
+         'encoding (strict_reader_accepts_only_encodings) and the model decoder returns exactly the values the strict reader '
+         'yields. Trusted: the transcription in Dicom/Spec/PduGrammar.lean; the tie of the model decoder to decode() is '
+         'C01\'s correspondence.'),
  'C05': ('DESIGN.md §6 C05',
          'Lean 4 invariants of the loop model for every schedule + pass-by-pass correspondence of the real loop with the model',
          'The loop model (reader, buffer, event queue, Table 9-10 as in C04, ARTIM clock, fragment generator, transport '
